@@ -93,6 +93,7 @@ def run(model, tier):
     classifier_mirror(model, res)
     side_consistency(model, res)
     side_tests(model, res)
+    region_table_mirror(model, res)
     c09_sym.check(model, res, tier)
     return res
 
@@ -234,6 +235,103 @@ def side_tests(model, res):
                                        ' and '.join(sorted(kinds))), line=st.lineno, construct=src_of_call(st.test)))
     if sites < 5:
         raise AnalysisError('only %d side tests found in riemann/utils.py (confirmed: 5)' % sites)
+
+
+MIRROR_NAMES = {'ul': ('ur', -1), 'ur': ('ul', -1), 'al': ('ar', 1), 'ar': ('al', 1), 'ux': ('ux', -1),
+                'ax1': ('ax2', 1), 'ax2': ('ax1', 1), 'Vs': ('Vs', -1), 'Vsl': ('Vsr', -1), 'Vsr': ('Vsl', -1)}
+MIRROR_TYPES = {'SCS': 'SCS', 'RCR': 'RCR', 'SCR': 'RCS', 'RCS': 'SCR'}
+
+
+def region_table_mirror(model, res):
+    """The table of wave speeds `Vregs` that bounds the regions of the ideal-gas solution: the table of
+    the mirrored wave pattern, written in the mirrored quantities (ul <-> -ur, al <-> ar, ux -> -ux,
+    ax1 <-> ax2, shock speeds negated and exchanged), is the negated table read backwards.
+    A head or tail placed with a velocity of the wrong side breaks this for unequal velocities."""
+    import ast as _ast
+    import sympy as sp
+    cls = model.get_class(RIEMANN)
+    fi = cls.methods.get('driver')
+    if fi is None:
+        raise AnalysisError('RiemannIGEOS.driver vanished')
+    tables = {}
+    for st in _ast.walk(fi.node):
+        if not isinstance(st, _ast.If):
+            continue
+        t = st.test
+        if not (isinstance(t, _ast.Compare) and isinstance(t.left, _ast.Name) and t.left.id == 'soln_type'
+                and len(t.ops) == 1 and isinstance(t.ops[0], _ast.Eq) and isinstance(t.comparators[0], _ast.Constant)):
+            continue
+        key = str(t.comparators[0].value).split('-')[-1]
+        for s2 in st.body:
+            if isinstance(s2, _ast.Assign) and len(s2.targets) == 1 and isinstance(s2.targets[0], _ast.Name) \
+                    and s2.targets[0].id == 'Vregs' and isinstance(s2.value, _ast.Call) and s2.value.args \
+                    and isinstance(s2.value.args[0], (_ast.List, _ast.Tuple)):
+                tables[key] = (s2, s2.value.args[0].elts)
+    if set(tables) != set(MIRROR_TYPES):
+        raise AnalysisError('Vregs tables found for %s (expected SCS, SCR, RCS, RCR)' % sorted(tables))
+
+    def conv(e, mirrored):
+        if isinstance(e, _ast.Name):
+            if mirrored:
+                if e.id not in MIRROR_NAMES:
+                    raise AnalysisError('Vregs uses %s: no mirror image known' % e.id)
+                nm, sg = MIRROR_NAMES[e.id]
+                return sg * sp.Symbol(nm)
+            return sp.Symbol(e.id)
+        if isinstance(e, _ast.Constant) and isinstance(e.value, (int, float)):
+            return sp.nsimplify(e.value)
+        if isinstance(e, _ast.UnaryOp) and isinstance(e.op, _ast.USub):
+            return -conv(e.operand, mirrored)
+        if isinstance(e, _ast.BinOp) and isinstance(e.op, (_ast.Add, _ast.Sub, _ast.Mult, _ast.Div)):
+            a, b2 = conv(e.left, mirrored), conv(e.right, mirrored)
+            return {_ast.Add: a + b2, _ast.Sub: a - b2, _ast.Mult: a * b2, _ast.Div: a / b2}[type(e.op)]
+        raise AnalysisError('unsupported expression in a Vregs table: %s' % _ast.unparse(e))
+
+    # each characteristic speed u -+ a takes velocity and sound speed from ONE state, minus for the
+    # left-running family (left state / left star state), plus for the right-running one
+    FAMILY = {('ul', 'al'): '-', ('ur', 'ar'): '+', ('ux', 'ax1'): '-', ('ux', 'ax2'): '+'}
+    for key, (st, elts) in sorted(tables.items()):
+        for e in elts:
+            if isinstance(e, _ast.BinOp) and isinstance(e.op, (_ast.Add, _ast.Sub)) and isinstance(e.left, _ast.Name) \
+                    and isinstance(e.right, _ast.Name) and e.right.id in ('al', 'ar', 'ax1', 'ax2'):
+                res.obligations += 1
+                res.evaluations += 1
+                res.nontrivial += 1
+                want = FAMILY.get((e.left.id, e.right.id))
+                got = '+' if isinstance(e.op, _ast.Add) else '-'
+                if want == got:
+                    res.discharged += 1
+                else:
+                    res.add(Finding(PROP, 'C09.side-consistency', fi.module.relpath, fi.qualname,
+                                    'Vregs[%s]: %s' % (key, _ast.unparse(e)),
+                                    "RiemannIGEOS.driver: the characteristic speed `%s` in the %s table combines a velocity and "
+                                    "a sound speed of different states, or with the sign of the other wave family (expected "
+                                    "ul - al, ux - ax1, ux + ax2, ur + ar)" % (_ast.unparse(e), key),
+                                    line=e.lineno, construct=_ast.unparse(e)))
+    for key, other in MIRROR_TYPES.items():
+        st, elts = tables[key]
+        ost, oelts = tables[other]
+        res.obligations += 1
+        res.evaluations += 1
+        res.nontrivial += 1
+        bad = None
+        if len(elts) != len(oelts):
+            bad = 'tables of different length'
+        else:
+            n = len(elts)
+            for i in range(n):
+                if sp.expand(conv(elts[i], True) + conv(oelts[n - 1 - i], False)) != 0:
+                    bad = "entry %d `%s` is not the mirror image of entry %d `%s` of the %s table" % (
+                        i, _ast.unparse(elts[i]), n - 1 - i, _ast.unparse(oelts[n - 1 - i]), other)
+                    break
+        if bad is None:
+            res.discharged += 1
+            res.sample({'rule': 'C09.mirror', 'pair': 'M(Vregs[%s]) == -reversed(Vregs[%s])' % (key, other)}, limit=16)
+        else:
+            res.add(Finding(PROP, 'C09.mirror', fi.module.relpath, fi.qualname, 'Vregs[%s] vs Vregs[%s]' % (key, other),
+                            "RiemannIGEOS.driver: the wave-speed table of the %s pattern is not the mirror image of the %s "
+                            "table (%s): a problem and its mirror image place a wave front at positions that are not "
+                            "reflections of each other" % (key, other, bad), line=st.lineno, construct=_ast.unparse(st)[:120]))
 
 
 def classifier_mirror(model, res):
